@@ -100,6 +100,29 @@ def gen_cases(rng, tier):
         spec["kind"] = "loop"
         k += 1
         yield spec
+    # synchronous schedulers run until their first bracket hands out jobs of its higher rungs, checkpoints deleted at STOP;
+    # DEHB also with the non-default option under which nothing is ever resumed (every trial gets STOP)
+    k = 0
+    while k < (8 if tier == "quick" else 100):
+        spec = loop.gen_spec(rng, tier)
+        if spec["backend"] != "script":
+            continue
+        kind = "dehb" if k < 3 else rng.choice(["dehb", "dehb", "sync"])
+        spec["scheduler"] = {"kind": kind, "modes": rng.choice(["min", "max"]), "reduction_factor": rng.choice([2, 3]),
+                             "brackets": rng.choice([None, 1, 2]), "max_resource_attr": rng.random() < 0.4}
+        if kind == "dehb" and (k < 3 or rng.random() < 0.6):
+            spec["scheduler"]["support_pause_resume"] = False
+        spec["max_t"] = 4 if spec["scheduler"]["reduction_factor"] == 2 else 9   # rungs of 4/2/1 or 9/3/1 jobs
+        spec["n_workers"] = rng.randint(2, 4)
+        spec["delete_checkpoints"] = True
+        spec["criterion"] = {"max_num_trials_started": rng.randint(24, 40)}
+        spec["inject"] = None
+        bp = spec.get("backend_params") or {}
+        bp.update({"p_fail": 0.0, "p_extstop": 0.0, "short_runs": None})
+        spec["backend_params"] = bp
+        spec["kind"] = "loop"
+        k += 1
+        yield spec
     for _ in range(20 if tier == "quick" else 300):
         typ = rng.choice(["promotion", "promotion", "pasha", "cost_promotion", "rush_promotion"])
         c = gen_ctor(rng, typ)
